@@ -24,7 +24,7 @@ ASSUMPTIONS = ["no tolerance beyond the statement (coordinates as printed)", "la
 
 def plan(tier, seed):
     k = 14 if tier == "quick" else 64
-    return [{"kind": "tl", "sub": i, "n": 45 if tier == "quick" else 700} for i in range(k)]
+    return [{"kind": "tl", "sub": i, "n": 150 if tier == "quick" else 1500} for i in range(k)]
 
 
 def floors(tier):
